@@ -218,6 +218,33 @@ func lifecycleCase(c *mon.Ctx, r *mon.Rand, prop string) {
 				ops = append(ops, "pass")
 			}
 		}
+		// the root requested through its own identity (no tags, or exactly the root's
+		// tags) is the root: one gauge object behind all three handles, so the last
+		// of three updates is what the next pass delivers last
+		{
+			r2 := root.Tagged(nil)
+			r3 := root.Tagged(mon.CopyTags(opts.Tags))
+			root.Gauge("rg").Update(31.5)
+			r2.Gauge("rg").Update(32.5)
+			r3.Gauge("rg").Update(33.5)
+			kr := mon.IdentKey("rg", tagsOf(nil))
+			for _, x := range []float64{31.5, 32.5, 33.5} {
+				wantGauge[kr] = append(wantGauge[kr], math.Float64bits(x))
+			}
+			lastGauge[kr] = math.Float64bits(33.5)
+			// and a scope tagged twice from a tagged parent is not the root-level scope
+			// that carries only the inner tags
+			inner := map[string]string{"b": "2"}
+			x := root.Tagged(map[string]string{"a": "1"}).Tagged(mon.CopyTags(inner))
+			y := root.Tagged(mon.CopyTags(inner))
+			x.Gauge("tg").Update(41.5)
+			y.Gauge("tg").Update(42.5)
+			kx, ky := mon.IdentKey("tg", tagsOf(map[string]string{"a": "1", "b": "2"})), mon.IdentKey("tg", tagsOf(inner))
+			wantGauge[kx] = append(wantGauge[kx], math.Float64bits(41.5))
+			wantGauge[ky] = append(wantGauge[ky], math.Float64bits(42.5))
+			lastGauge[kx], lastGauge[ky] = math.Float64bits(41.5), math.Float64bits(42.5)
+			ops = append(ops, "root identity through Tagged(nil)/Tagged(root tags); a twice-tagged scope next to a root-level scope with the inner tags")
+		}
 		// two metrics whose names and tags differ but whose delimiter-joined
 		// rendering (name + '+' + k=v pairs) is one string: two metrics nevertheless
 		if len(opts.Tags) == 0 {
